@@ -295,7 +295,11 @@ Theorem C01_dir_refines_map :
               e_lfn ne = (if is_dot_name dst then [] else utf16_encode dst) /\ e_lfn_ok ne = true /\
               e_sfn ne = e_sfn e /\
               e_attr ne = e_attr e mod 64 /\ e_size ne = e_size e /\ e_cluster ne = e_cluster e /\
-              forall key, dir_map es' key = if list_eqb (e_sfn e) key then Some ne else dir_map es key)))).
+              forall key, dir_map es' key = if list_eqb (e_sfn e) key then Some ne else dir_map es key) /\
+           (* ... and then no OTHER listed entry matches the new spelling (the scan added by 7e5011a: D27) *)
+           (has_exact_name ev dst = false ->
+            forall l other, dir_entries oem ss = Ok l -> In other l -> Lfn.ev_end other <> Lfn.ev_end ev ->
+              matches upper oem dst other = false)))).
 Proof. exact dir_refines_map. Qed.
 Theorem C01_remove_entry_insane_refuted :
   exists ss name ss' es ls,
@@ -508,8 +512,8 @@ Proof. exact vol_remove_failed_unchanged. Qed.
    node of the source entry and gained exactly one node (first fit; all other nodes exactly as before, same relative
    order): the SAME cluster chain and the SAME content - FAT and data area are untouched and the new entry carries the
    source's first cluster and size -, the source's attributes (bits 6-7 dropped), the new long name; its short name is a
-   fresh legal alias, or the source's own when only the spelling changes (D22); no issue; labels, geometry, status byte
-   as before.  Any other outcome leaves every byte as it was (in particular the source: D20). *)
+   fresh legal alias, or the source's own when only the spelling changes (D22) - and then no other listed entry matches
+   the new spelling (D27, 7e5011a) -; no issue; labels, geometry, status byte as before.  Any other outcome leaves every byte as it was (in particular the source: D20). *)
 Theorem C01_vol_rename_decodes : forall upper oem im src dst im',
   fixed_root_geom (parse_geom im) -> v_root_issues (abs im) = [] ->
   Forall attrs_sane (root_region_slots (parse_geom im) im) ->
@@ -533,7 +537,9 @@ Theorem C01_vol_rename_decodes : forall upper oem im src dst im',
                     ~ In a (map e_sfn (map node_entry (v_root (abs im))))) \/
          (exists dv, check_for_existence upper oem (root_region_slots (parse_geom im) im) dst None = Ok (Exists dv) /\
                      Lfn.ev_end dv = Lfn.ev_end ev /\ has_exact_name ev dst = false /\
-                     e_sfn (node_entry n') = e_sfn (node_entry n))) /\
+                     e_sfn (node_entry n') = e_sfn (node_entry n) /\
+                     (forall l other, dir_entries oem (root_region_slots (parse_geom im) im) = Ok l -> In other l ->
+                                      Lfn.ev_end other <> Lfn.ev_end ev -> matches upper oem dst other = false))) /\
         v_root_issues (abs im') = [] /\ v_labels (abs im') = v_labels (abs im) /\
         v_geom (abs im') = v_geom (abs im) /\ v_status (abs im') = v_status (abs im))).
 Proof. exact vol_rename_decodes. Qed.
